@@ -1672,15 +1672,36 @@ pub fn g_matrix(w: &mut W, rng: &mut Rng, variants: u64) {
                         }
                         _ => {}
                     }
-                    // extras: a supported piece of either side on another trap, a few random pieces
-                    if rng.chance(60, 100) {
-                        let t2 = TRAPS[rng.below(4) as usize];
-                        if t2 != trap && cells[t2].is_none() {
-                            let o = rng.chance(1, 2);
-                            let sup = nbrs(t2)[rng.below(4) as usize];
-                            if cells[sup].is_none() && sup != d {
-                                cells[t2] = Some((o, KINDS[1 + rng.below(5) as usize]));
-                                cells[sup] = Some((o, KINDS[1 + rng.below(4) as usize]));
+                    // extras: each OTHER trap may hold a supported piece (more often of the moved piece's side, so that one
+                    // side sometimes holds all four traps), a few random pieces
+                    for &t2 in TRAPS.iter() {
+                        if t2 == trap || cells[t2].is_some() || !rng.chance(1, 2) {
+                            continue;
+                        }
+                        let o = if rng.chance(3, 5) { m_owner } else { !m_owner };
+                        let sups: Vec<usize> = nbrs(t2).into_iter().filter(|x| cells[*x].is_none() && *x != d && *x != m).collect();
+                        if sups.is_empty() || t2 == d {
+                            continue;
+                        }
+                        let sup = sups[rng.below(sups.len() as u64) as usize];
+                        cells[t2] = Some((o, KINDS[rng.below(6) as usize]));
+                        cells[sup] = Some((o, KINDS[1 + rng.below(4) as usize]));
+                    }
+                    if (mtype == 2 || mtype == 4) && rng.chance(1, 2) {
+                        // a decoy: a stronger piece of the mover next to the pushed piece / the vacated square, but FROZEN
+                        // (an enemy piece stronger still beside it, no friend): it must not push / complete the push
+                        let anchor = if mtype == 2 { m } else { d };
+                        let weak = if mtype == 2 { km } else { status.2 as usize };
+                        let spots: Vec<usize> = nbrs(anchor).into_iter().filter(|x| cells[*x].is_none() && *x != d && *x != m && !TRAPS.contains(x)).collect();
+                        if weak < 4 && !spots.is_empty() {
+                            let q = spots[rng.below(spots.len() as u64) as usize];
+                            let kq = weak + 1 + rng.below((4 - weak) as u64) as usize; // stronger than the pushed piece, below elephant
+                            let has_friend = nbrs(q).iter().any(|x| matches!(cells[*x], Some((g, _)) if g == gold));
+                            let fz: Vec<usize> = nbrs(q).into_iter().filter(|x| cells[*x].is_none() && *x != d && *x != m && !TRAPS.contains(x)).collect();
+                            if !has_friend && !fz.is_empty() {
+                                let f = fz[rng.below(fz.len() as u64) as usize];
+                                cells[q] = Some((gold, KINDS[kq.min(4)]));
+                                cells[f] = Some((!gold, KINDS[(kq + 1).min(5)]));
                             }
                         }
                     }
